@@ -19,7 +19,7 @@ live        : ConfigInherit_Live — ONE manager over time: histories of collaps
               sections, dropped when a source is added) is checked against it (CacheCoherent,
               ReadIsFresh) and the design that keeps the cache is rejected.  TLC enumerates ALL
               histories (2 names, every source with inherit lists <= 1, <= 2 sources, 3 operations
-              quick / 4 thorough); those of the form read..add..read are replayed on a real manager,
+              quick / 4 thorough); a seeded sample of those of the form read..add..read is replayed on a real manager,
               plus seeded random histories (up to 4 names / 4 sources / 10 operations).
               ConfigInherit_LiveTrace walks each history, accumulating the sources, and judges every
               read with the same JudgeRead; clauses of reads after an add carry the prefix AfterAdd_.
@@ -277,7 +277,7 @@ def run(ck):
         ck.sample(dict(direction="spec->code", defs=events[len(events) // 2]["defs"], outcome=events[len(events) // 2]["outcome"]))
         # 3. code -> spec
         r_ = rng(43)
-        for _ in range(ck.pick(1500, 50000)):
+        for _ in range(ck.pick(1500, 30000)):
             execute(random_cfg(r_), "a", ["class"] + ORD_KEYS)
         ck.sample(dict(direction="code->spec", defs=events[-1]["defs"], outcome=events[-1]["outcome"], vals=events[-1]["vals"]))
         # 4. one LIVE manager: collapse / add_config_source / collapse ...
@@ -298,13 +298,13 @@ def run(ck):
         if len(hists) < 5000:
             raise tlc.MachineryError(f"only {len(hists)} histories enumerated\n{res.out[-1500:]}")
         ck.extra["live_histories_enumerated"] = len(hists)
-        if ck.quick:  # a seeded third of them; thorough replays all
-            hists = r_.sample(hists, 3000)
+        # a seeded sample is replayed (quick: a third of the 3-operation histories; thorough: 20000 of the 4-operation ones)
+        hists = r_.sample(hists, min(len(hists), ck.pick(3000, 20000)))
         ck.extra["live_histories_replayed"] = len(hists)
         for h in hists:
             execute_live(ops_of_hist(h), ["class", "k1"])
         ck.sample(dict(direction="spec->code (live manager)", history=ops_of_hist(hists[len(hists) // 2])))
-        for _ in range(ck.pick(1000, 20000)):
+        for _ in range(ck.pick(1000, 10000)):
             execute_live(random_history(r_), ["class"] + ORD_KEYS)
         ck.sample(dict(direction="code->spec (live manager)", history=live_runs[-1][0]))
 
